@@ -840,6 +840,36 @@ func c19Gen(r *common.Rand, thorough bool, ws bool) [][]c19Step {
 	return groups
 }
 
+// c19ManyKinds: a relay that runs for a long time sees many different kinds.  25 sessions on one middleware
+// value submit 1100 events of 1100 different kinds (44 rounds of 25 concurrent submissions), end, and a later
+// session submits the first and the last kind once more: every per-kind counter must still be there.
+func c19ManyKinds() [][]c19Step {
+	const ns, rounds = 25, 44
+	var groups [][]c19Step
+	var g []c19Step
+	for s := 0; s < ns; s++ {
+		g = append(g, c19Step{Op: "start", S: s})
+	}
+	groups = append(groups, g)
+	for j := 0; j < rounds; j++ {
+		g = nil
+		for s := 0; s < ns; s++ {
+			g = append(g, c19Step{Op: "c", S: s, M: &c19Msg{T: "EVENT", Kind: int64(j*ns + s)}})
+		}
+		groups = append(groups, g)
+	}
+	g = nil
+	for s := 0; s < ns; s++ {
+		g = append(g, c19Step{Op: "end", S: s, How: "quit"})
+	}
+	groups = append(groups, g)
+	groups = append(groups, []c19Step{{Op: "start", S: ns}})
+	groups = append(groups, []c19Step{{Op: "c", S: ns, M: &c19Msg{T: "EVENT", Kind: 0}}})
+	groups = append(groups, []c19Step{{Op: "c", S: ns, M: &c19Msg{T: "EVENT", Kind: rounds*ns - 1}}})
+	groups = append(groups, []c19Step{{Op: "end", S: ns, How: "quit"}})
+	return groups
+}
+
 func init() {
 	subcmds["c19"] = func(seed uint64, n int, out *common.Out, replay string) {
 		if c19WorkerMode() {
@@ -869,6 +899,10 @@ func init() {
 			gen = func(i int) c19Case {
 				if i >= direct {
 					return c19Case{Via: c19WS, Groups: c19Gen(wsRoot.Fork(uint64(i-direct)), direct >= 10000, true)}
+				}
+				if i == 0 && direct >= 10000 {
+					// thorough tier only: the model needs about three minutes for this one history
+					return c19Case{Groups: c19ManyKinds()}
 				}
 				return c19Case{Groups: c19Gen(root.Fork(uint64(i)), direct >= 10000, false)}
 			}
